@@ -640,6 +640,27 @@ func c04touchcap(c *an.Ctx) {
 	if n == 0 {
 		c.Bad(fn, "touch deadline capped", fn.Pos(), "TouchMessage does not reset msg.pri", nil)
 	}
+	// every delivery stamps deliveryTS with the same now that the deadline is computed from
+	if sf := c.Fn("nsqd", "(*Channel).StartInFlightTimeout"); sf != nil {
+		q := &an.PathQ{Fn: sf, StartEntry: true, Sink: sinkSuccessReturn, Cut: func(in ssa.Instruction, _ *an.PathState) bool {
+			st, ok := in.(*ssa.Store)
+			if !ok {
+				return false
+			}
+			fa, ok := st.Addr.(*ssa.FieldAddr)
+			if !ok || an.FieldOf(fa) != dtsF || !isParam(fa.X, sf, 1) {
+				return false
+			}
+			call, ok := an.Strip(st.Val).(*ssa.Call)
+			return ok && an.StdCallee(call, "time", "Now")
+		}}
+		w, f := q.Find()
+		if f {
+			c.Bad(sf, "every delivery stamps deliveryTS = now", sf.Pos(), "a delivery can complete without deliveryTS being set to time.Now(): TOUCH's cap is then measured from an earlier delivery (or from the zero time) and the message is redelivered before its timeout", w)
+		} else {
+			c.OK(sf, "every delivery stamps deliveryTS = now", sf.Pos(), "")
+		}
+	}
 	// deliveryTS is set at delivery only
 	for _, g := range c.P.PkgFuncs("nsqd") {
 		an.Instrs(g, func(in ssa.Instruction) {
